@@ -20,7 +20,8 @@ BUDGET = {"quick": 50, "thorough": 540}
 RULE = (
     "case = generated schema x valid document x operation x variables x lazily drawn resolver data x "
     "implementation plan; oracle = independent reference executor on the model (ordered data, resolver-call "
-    "multiset, type-resolver precedence). Distinct = SHA-1 of the canonical case spec; non-trivial = the "
+    "multiset, type-resolver precedence); parent values come as dicts, attribute objects, class-named objects, read-only mappings and "
+    "row objects with only __getitem__. Distinct = SHA-1 of the canonical case spec; non-trivial = the "
     "executed operation exercised at least one of: a type condition differing from the runtime type, a "
     "response key collected from >=2 field nodes, @skip/@include driven by a variable, an abstract-typed value."
 )
